@@ -318,6 +318,10 @@ func parseMember(member string) (Member, error) {
 	if found {
 		// Parse the member properties.
 		for _, pStr := range strings.Split(properties, propertyDelimiter) {
+			if pStr == "" {
+				// "k=v;" or "k=v;;p": an empty segment carries no property.
+				continue
+			}
 			p, err := parseProperty(pStr)
 			if err != nil {
 				return newInvalidMember(), err
